@@ -92,6 +92,7 @@ type PkgContracts struct {
 	Imports    []string                                     // extra import lines
 	Ghosts     []string                                     // ghost package-level variables: "name type"
 	Decls      []string                                     // raw specification-only Go declarations (types)
+	Locks      *LockSpec                                    // lockset discipline declarations (C09)
 	IgnorePkgs []string                                     // calls from this package into these packages are ignored
 	atcallVars func(fs *FuncSpec, callee string) []localVar // locals + callee parameters visible to an atcall clause
 	Raw        string
@@ -101,6 +102,7 @@ var clauseKeywords = map[string]bool{
 	"func": true, "trusted": true, "pure": true, "inline": true, "ignore": true, "spec": true, "lemma": true, "import": true,
 	"requires": true, "ensures": true, "modifies": true, "loop": true, "arith": true, "overflow": true, "allow_panic": true,
 	"theory": true, "untrusted_input": true, "pragma": true, "assert": true, "note": true, "tparams": true, "ghost": true, "decl": true, "atcall": true, "ignorepkg": true, "trusted_ensures": true,
+	"guarded_by": true, "requires_held": true, "holds_during": true, "lock_order": true, "unshared": true, "lock_alias": true,
 }
 
 type rawClause struct {
@@ -293,8 +295,13 @@ func loadContracts(dir, pkgPath string) (*PkgContracts, error) {
 		fs.Key += name
 		return fs, add(fs)
 	}
+	var lockClauses []rawClause
 	for _, c := range clauses {
 		switch c.kw {
+		case "guarded_by", "requires_held", "holds_during", "lock_order", "unshared", "lock_alias":
+			lockClauses = append(lockClauses, c)
+			cur = nil
+			continue
 		case "import":
 			pc.Imports = append(pc.Imports, c.text)
 			continue
@@ -413,6 +420,11 @@ func loadContracts(dir, pkgPath string) (*PkgContracts, error) {
 			}
 		}
 		if err != nil {
+			return nil, err
+		}
+	}
+	if len(lockClauses) > 0 {
+		if err := parseLockClauses(pc, lockClauses); err != nil {
 			return nil, err
 		}
 	}
